@@ -144,6 +144,13 @@ def _decode_type(tidx, base, A, B):
         interactions.setdefault('bonds', []).append([[i, j], ['1', '0.%d' % (30 + k + tidx), '1250'], meta])
     if nb >= 3 and T[48] % 2 == 0:
         interactions.setdefault('angles', []).append([[0, 1, 2], ['2', '%d' % (100 + tidx), '25'], {}])
+    if interactions.get('bonds') and (T[48] // 2) % 3 == 0:
+        # several terms on the same atoms without a distinguishing version (as multi-term dihedrals in all-atom force
+        # fields): every term of the block must be copied into every placement
+        atoms0 = interactions['bonds'][0][0]
+        interactions['bonds'].append([list(atoms0), ['6', '0.%d' % (40 + tidx), '300'], {}])
+        if (T[48] // 6) % 2 == 0:
+            interactions['bonds'].append([list(atoms0), ['1', '0.%d' % (30 + tidx), '1250'], {'comment': 'again'}])
     # the mapping table
     flags = T[38]
     shared_ok = flags % 2 == 0
